@@ -173,6 +173,31 @@ def not_implemented(rep):
 
 
 # ---------------------------------------------------------------------------------------
+
+def annotation_table(rep):
+    """T2 (shared with C05: a supplied aggregate column is converted by this annotation)"""
+    from _gettsim import functions_loader as fl
+
+    # T2: contract of _annotations_for_aggregation -- whichever kind of source (a function with a return
+    # annotation, a documented input variable), the declared types follow the table
+    from _gettsim.config import TYPES_INPUT_VARIABLES
+
+    table = lambda aggr, ty: bool if (ty is int and aggr in ("any", "all")) else int if (ty is bool and aggr == "sum") else ty  # noqa: E731
+    for aggr in ("sum", "mean", "max", "min", "any", "all"):
+        for ty in (float, int, bool):
+            def src() -> None:
+                return None
+
+            src.__annotations__ = {"return": ty}
+            inp = next(n for n, t in TYPES_INPUT_VARIABLES.items() if t is ty and not n.endswith("_id") and not n.startswith("p_id"))
+            for kind_, spec, funcs, col in (("function", {"aggr": aggr, "source_col": "verif_src"}, {"verif_src": src}, "verif_src"), ("input variable", {"aggr": aggr, "source_col": inp}, {}, inp)):
+                a = fl._annotations_for_aggregation(spec, funcs)
+                ok = a.get("return") is table(aggr, ty) and a.get(col) is ty
+                rep.ob(f"T2 annotations of {aggr} over a {ty.__name__} {kind_}: source {ty.__name__}, result {table(aggr, ty).__name__}", "discharged" if ok else "refuted", "exhaustive-run", 0, "src/_gettsim/functions_loader.py:482", "type-table", str(a))
+                if not ok:
+                    rep.violation(f"annotations:{aggr}:{ty.__name__}:{kind_}", f"_annotations_for_aggregation({spec}) with a {ty.__name__} {kind_} as source gives {a}; the result type must be {table(aggr, ty).__name__} (a supplied aggregate column is converted by this annotation)", {"obligation": "T2", "spec": spec, "got": str(a)}, True)
+
+
 def precedence(rep):
     from _gettsim import functions_loader as fl
     from vt import facts
@@ -261,6 +286,7 @@ def precedence(rep):
             rep.ob(f"T result type of {aggr} over {ty.__name__} is {want.__name__}", "discharged" if got is want else "refuted", "exhaustive-run", 0, "src/_gettsim/functions_loader.py:515", "type-table")
             if got is not want:
                 rep.violation(f"return-type:{aggr}:{ty.__name__}", f"_select_return_type({aggr},{ty.__name__}) = {got}, GEP-4 says {want.__name__}", {"obligation": "T"}, True)
+    annotation_table(rep)
     ann = fl._annotations_for_aggregation({"aggr": "count"}, {})
     rep.ob("T result type of count is int", "discharged" if ann.get("return") is int else "refuted", "exhaustive-run", 0, "src/_gettsim/functions_loader.py:482", "type-table")
 
